@@ -203,6 +203,39 @@ def rule_e(R, ctx):
         R.ob("C07.e", fn, setter, found, why)
 
 
+def rule_k(R, ctx, rid="C07.k"):
+    import json as _json
+    Y = ctx.yrs
+    R.rule(rid, "R-TABLE subscription ↔ event list: every Doc::observe_X / observe_X_with / unobserve_X touches exactly the event list "
+                "`X_events` of StoreEvents (update_v1 ↔ update_v1_events, update_v2 ↔ update_v2_events, …) with subscribe / "
+                "subscribe_with / unsubscribe respectively, and emit_update_v1 / _v2 trigger the list of their own version — a v2 "
+                "subscriber registered on the v1 list receives v1 payloads")
+    n = 0
+    for p, fn in sorted(Y.fns.items()):
+        m = re.match(r"^yrs::doc::Doc::(un)?observe_(\w+?)(_with)?$", p)
+        if not m or not fn.mir:
+            continue
+        fields = set()
+        for i, j, st in fn.stmts():
+            for mm in re.finditer(r"StoreEvents\.(\w+)", _json.dumps(st)):
+                fields.add(mm.group(1))
+        want_call = "unsubscribe" if m.group(1) else ("subscribe_with" if m.group(3) else "subscribe")
+        calls = sorted({F.strip_generics(c.name).rsplit("::", 1)[-1] for c in fn.calls()
+                        if re.search(r"Observer::(subscribe|subscribe_with|unsubscribe)$", F.strip_generics(c.name))})
+        n += 1
+        ok = fields == {m.group(2) + "_events"} and calls == [want_call]
+        R.ob(rid, fn, "event-list", ok, "%s on %s" % (calls, sorted(fields)) if ok else
+             "%s on %s — expected %s on ['%s_events']" % (calls, sorted(fields), want_call, m.group(2)))
+    R.floor(rid, "observe / unobserve wrappers of Doc", n, 18)
+    for ver in ("v1", "v2"):
+        fn = Y.fn("yrs::store::StoreEvents::emit_update_" + ver)
+        fields = set()
+        for i, j, st in fn.stmts():
+            for mm in re.finditer(r"StoreEvents\.(\w+)", _json.dumps(st)):
+                fields.add(mm.group(1))
+        R.ob(rid, fn, "event-list", fields == {"update_%s_events" % ver}, "triggers %s" % sorted(fields))
+
+
 def check(ctx, R):
     R.run("C07.a", rule_a, ctx)
     R.run("C07.b", rule_b, ctx)
@@ -222,4 +255,5 @@ def check(ctx, R):
     R.run("C07.i", lambda R, c: _c16.rule_e(R, c, "C07.i"), ctx)
     from . import shared as _shx
     R.run("C07.j", lambda R, c: _shx.export_extent(R, c, "C07.j"), ctx)
+    R.run("C07.k", rule_k, ctx)
     return {}
